@@ -350,9 +350,9 @@ def _run_real(case, strategy, record=None):
                 orig_new = idc.get_new_outcomes_and_conditions
                 orig_r2 = idc.cf_rule_2_of_do_calculus_applies
 
-                def rec_r2(cf_graph, outcomes, condition):
+                def rec_r2(cf_graph, outcomes, condition, **kw):
                     outcomes = list(outcomes)
-                    r = orig_r2(cf_graph, outcomes, condition)
+                    r = orig_r2(cf_graph, outcomes, condition, **kw)
                     record["rule2"].append({"level": len(record["levels"]) - 1, "cf": K.enc_nx_cf_graph(cf_graph),
                                             "outcomes": [E.enc_var(o) for o in outcomes],
                                             "condition": E.enc_var(condition), "result": bool(r)})
